@@ -1,12 +1,1056 @@
-//! Extension module (Tier A): owner fills in. Output: coq/gen/CountsFns.v
+//! Extension module (Tier A, property C19). Output: coq/gen/CountsFns.v
 //! Contract: return (text of the .v file, report lines). Each report line is one JSON object
 //! {"item":"CountsFns.<name>","file":"<rust file>","ok":true|false[,"error":"..."]}.
 //! Fail closed: when a site is not recognised, OMIT the Gallina definition (so dependent proofs stop
 //! compiling) and push an ok:false report line.
+//!
+//! Three groups of items:
+//!  A. `AtomicCounts` packing of concurrency/src/threadpool/mod.rs, as Gallina over `N` with an
+//!     explicit `mod 2^w` after every wrapping operation (`w` = width of the Rust type):
+//!     `EXPECTED_SHIFT`, `COMPLETED_MASK`, `completed`, `expected`, `with_root_callback`,
+//!     `expect_one_guard` / `expect_one_next` (assert condition and CAS target of
+//!     `AtomicCounts::expect_one`), `complete_one_next` (`fetch_add` operand of
+//!     `AtomicCounts::complete_one`, which must return the previous word),
+//!     `scope_complete_is_last` (the test that decides `try_send` in `ScopeState::complete_one`).
+//!  B. `atomic_sites`: every atomic operation (method call taking a `std::sync::atomic::Ordering`,
+//!     `fence`, and every `fetch_*` / `compare_exchange*` call) in concurrency/src and
+//!     union-find/src/concurrent, outside `#[cfg(test)]` / `#[cfg(egglog_verif)]` items, with the
+//!     enclosing function and its orderings (constants of type `Ordering` are resolved).
+//!  C. `prog_*`: the synchronisation operations, in program order and with the control structure
+//!     (loop / match on the token / if / return / continue), of `ReadOptimizedLock::read`,
+//!     `ReadOptimizedLock::lock`, `MutexWriter::drop`, `TriggerWhenDone::drop`,
+//!     `Notification::{wait, notify, has_been_notified}`.
 
-pub fn generate(_repo: &std::path::Path) -> (String, Vec<String>) {
-    (
-        "(* GENERATED by /verif/translator (x_counts.rs): nothing extracted yet *)\n".to_string(),
-        Vec::new(),
-    )
+use std::collections::BTreeMap;
+use std::path::{Path, PathBuf};
+use syn::visit::{self, Visit};
+use syn::{spanned::Spanned, BinOp, Expr, FnArg, ImplItem, Item, Lit, Pat, Stmt, Type};
+
+type R<T> = Result<T, String>;
+
+fn err<T, S: Spanned>(s: &S, msg: &str) -> R<T> {
+    Err(format!("line {}: {}", s.span().start().line, msg))
+}
+
+const POOL: &str = "concurrency/src/threadpool/mod.rs";
+const LIBRS: &str = "concurrency/src/lib.rs";
+const NOTIF: &str = "concurrency/src/notification.rs";
+
+const M32: &str = "4294967296";
+const M64: &str = "18446744073709551616";
+
+// ------------------------------------------------------------------------------------------------
+// A. integer expressions over u32 / u64
+// ------------------------------------------------------------------------------------------------
+
+#[derive(Clone, Copy, PartialEq, Debug)]
+enum Ty {
+    U32,
+    U64,
+    Bool,
+    Lit,
+}
+
+fn modulus(t: Ty) -> Option<&'static str> {
+    match t {
+        Ty::U32 => Some(M32),
+        Ty::U64 => Some(M64),
+        _ => None,
+    }
+}
+
+fn ty_of(t: &Type) -> Option<Ty> {
+    if let Type::Path(p) = t {
+        if let Some(id) = p.path.get_ident() {
+            return match id.to_string().as_str() {
+                "u32" => Some(Ty::U32),
+                "u64" => Some(Ty::U64),
+                "bool" => Some(Ty::Bool),
+                _ => None,
+            };
+        }
+    }
+    None
+}
+
+#[derive(Default, Clone)]
+struct Env {
+    /// rust name -> (coq name, type)
+    vars: Vec<(String, String, Ty)>,
+    /// translated unary functions u64 -> u32 (rust name = coq name)
+    fns: Vec<String>,
+}
+
+impl Env {
+    fn lookup(&self, n: &str) -> Option<(String, Ty)> {
+        self.vars.iter().rev().find(|(r, _, _)| r == n).map(|(_, c, t)| (c.clone(), *t))
+    }
+}
+
+fn unify<S: Spanned>(at: &S, a: Ty, b: Ty) -> R<Ty> {
+    match (a, b) {
+        (Ty::Lit, Ty::Lit) => Ok(Ty::Lit),
+        (Ty::Lit, t) | (t, Ty::Lit) if t != Ty::Bool => Ok(t),
+        (x, y) if x == y && x != Ty::Bool => Ok(x),
+        _ => err(at, &format!("operand types differ ({a:?} vs {b:?})")),
+    }
+}
+
+fn tr(e: &Expr, env: &Env, want: Option<Ty>) -> R<(String, Ty)> {
+    match e {
+        Expr::Paren(p) => tr(&p.expr, env, want),
+        Expr::Group(p) => tr(&p.expr, env, want),
+        Expr::Lit(l) => match &l.lit {
+            Lit::Int(i) => {
+                let v: u128 = i.base10_parse().map_err(|_| format!("line {}: literal", e.span().start().line))?;
+                let t = match i.suffix() {
+                    "" => want.filter(|t| *t != Ty::Bool).unwrap_or(Ty::Lit),
+                    "u32" => Ty::U32,
+                    "u64" => Ty::U64,
+                    s => return err(e, &format!("literal suffix {s}")),
+                };
+                Ok((format!("{v}"), t))
+            }
+            Lit::Bool(b) => Ok((format!("{}", b.value), Ty::Bool)),
+            _ => err(e, "unsupported literal"),
+        },
+        Expr::Path(p) => {
+            let segs: Vec<String> = p.path.segments.iter().map(|s| s.ident.to_string()).collect();
+            if segs.len() == 1 {
+                if let Some((c, t)) = env.lookup(&segs[0]) {
+                    return Ok((c, t));
+                }
+                return err(e, &format!("unknown name {}", segs[0]));
+            }
+            if segs.len() == 2 && segs[1] == "MAX" {
+                return match segs[0].as_str() {
+                    "u32" => Ok(("4294967295".into(), Ty::U32)),
+                    "u64" => Ok(("18446744073709551615".into(), Ty::U64)),
+                    _ => err(e, "unsupported ::MAX"),
+                };
+            }
+            err(e, "unsupported path")
+        }
+        Expr::Cast(c) => {
+            let to = ty_of(&c.ty).filter(|t| *t != Ty::Bool).ok_or(format!("line {}: cast target", e.span().start().line))?;
+            let (s, from) = tr(&c.expr, env, None)?;
+            if from == Ty::Bool {
+                return err(e, "cast from bool");
+            }
+            if from == Ty::U32 && to == Ty::U64 {
+                Ok((s, to))
+            } else if from == to {
+                Ok((s, to))
+            } else {
+                Ok((format!("(N.modulo {s} {})", modulus(to).unwrap()), to))
+            }
+        }
+        Expr::Call(c) => {
+            if let Expr::Path(p) = &*c.func {
+                if let Some(id) = p.path.get_ident() {
+                    let n = id.to_string();
+                    if env.fns.contains(&n) && c.args.len() == 1 {
+                        let (a, t) = tr(&c.args[0], env, Some(Ty::U64))?;
+                        if t != Ty::U64 {
+                            return err(e, "argument of a packed-word accessor must be u64");
+                        }
+                        return Ok((format!("({n} {a})"), Ty::U32));
+                    }
+                }
+            }
+            err(e, "unsupported call")
+        }
+        Expr::Unary(u) => match u.op {
+            syn::UnOp::Not(_) => {
+                let (a, t) = tr(&u.expr, env, want)?;
+                if t == Ty::Bool {
+                    Ok((format!("(negb {a})"), Ty::Bool))
+                } else {
+                    err(e, "bitwise not unsupported")
+                }
+            }
+            _ => err(e, "unsupported unary operator"),
+        },
+        Expr::Binary(b) => {
+            let arith = |coq: &str, wrap: bool| -> R<(String, Ty)> {
+                let (l0, lt0) = tr(&b.left, env, want)?;
+                let (r, rt) = tr(&b.right, env, Some(lt0).filter(|t| *t != Ty::Lit).or(want))?;
+                let (l, lt) = if lt0 == Ty::Lit && rt != Ty::Lit { tr(&b.left, env, Some(rt))? } else { (l0, lt0) };
+                let t = unify(e, lt, rt)?;
+                if wrap {
+                    let m = modulus(t).ok_or(format!("line {}: width of a wrapping operation unknown", e.span().start().line))?;
+                    Ok((format!("(N.modulo ({coq} {l} {r}) {m})"), t))
+                } else {
+                    Ok((format!("({coq} {l} {r})"), t))
+                }
+            };
+            let cmp = |coq: &str, swap: bool, neg: bool| -> R<(String, Ty)> {
+                let (l0, lt0) = tr(&b.left, env, None)?;
+                let (r, rt) = tr(&b.right, env, Some(lt0).filter(|t| *t != Ty::Lit))?;
+                let (l, lt) = if lt0 == Ty::Lit && rt != Ty::Lit { tr(&b.left, env, Some(rt))? } else { (l0, lt0) };
+                unify(e, lt, rt)?;
+                let s = if swap { format!("({coq} {r} {l})") } else { format!("({coq} {l} {r})") };
+                Ok((if neg { format!("(negb {s})") } else { s }, Ty::Bool))
+            };
+            match b.op {
+                BinOp::Add(_) => arith("N.add", true),
+                BinOp::Mul(_) => arith("N.mul", true),
+                BinOp::BitAnd(_) => arith("N.land", false),
+                BinOp::BitOr(_) => arith("N.lor", false),
+                BinOp::BitXor(_) => arith("N.lxor", false),
+                BinOp::Sub(_) => {
+                    let (l, lt) = tr(&b.left, env, want)?;
+                    let (r, rt) = tr(&b.right, env, Some(lt).filter(|t| *t != Ty::Lit).or(want))?;
+                    let t = unify(e, lt, rt)?;
+                    let m = modulus(t).ok_or(format!("line {}: width of a wrapping operation unknown", e.span().start().line))?;
+                    Ok((format!("(N.modulo (N.sub (N.add {l} {m}) {r}) {m})"), t))
+                }
+                BinOp::Shl(_) | BinOp::Shr(_) => {
+                    let (l, lt) = tr(&b.left, env, want)?;
+                    let (r, rt) = tr(&b.right, env, None)?;
+                    if rt == Ty::Bool || lt == Ty::Bool {
+                        return err(e, "shift of bool");
+                    }
+                    let m = modulus(lt).ok_or(format!("line {}: width of the shifted value unknown", e.span().start().line))?;
+                    if matches!(b.op, BinOp::Shl(_)) {
+                        Ok((format!("(N.modulo (N.shiftl {l} {r}) {m})"), lt))
+                    } else {
+                        Ok((format!("(N.shiftr {l} {r})"), lt))
+                    }
+                }
+                BinOp::Eq(_) => cmp("N.eqb", false, false),
+                BinOp::Ne(_) => cmp("N.eqb", false, true),
+                BinOp::Lt(_) => cmp("N.ltb", false, false),
+                BinOp::Le(_) => cmp("N.leb", false, false),
+                BinOp::Gt(_) => cmp("N.ltb", true, false),
+                BinOp::Ge(_) => cmp("N.leb", true, false),
+                BinOp::And(_) => {
+                    let (l, _) = tr(&b.left, env, Some(Ty::Bool))?;
+                    let (r, _) = tr(&b.right, env, Some(Ty::Bool))?;
+                    Ok((format!("(andb {l} {r})"), Ty::Bool))
+                }
+                BinOp::Or(_) => {
+                    let (l, _) = tr(&b.left, env, Some(Ty::Bool))?;
+                    let (r, _) = tr(&b.right, env, Some(Ty::Bool))?;
+                    Ok((format!("(orb {l} {r})"), Ty::Bool))
+                }
+                _ => err(e, "unsupported binary operator"),
+            }
+        }
+        _ => err(e, "unsupported expression"),
+    }
+}
+
+fn find_const<'a>(file: &'a syn::File, name: &str) -> Option<&'a syn::ItemConst> {
+    file.items.iter().find_map(|i| match i {
+        Item::Const(c) if c.ident == name => Some(c),
+        _ => None,
+    })
+}
+
+fn find_fn<'a>(file: &'a syn::File, name: &str) -> Option<&'a syn::ItemFn> {
+    file.items.iter().find_map(|i| match i {
+        Item::Fn(f) if f.sig.ident == name => Some(f),
+        _ => None,
+    })
+}
+
+fn self_ty_name(i: &syn::ItemImpl) -> Option<String> {
+    if let Type::Path(p) = &*i.self_ty {
+        return p.path.segments.last().map(|s| s.ident.to_string());
+    }
+    None
+}
+
+fn find_method<'a>(file: &'a syn::File, ty: &str, name: &str) -> Option<&'a syn::ImplItemFn> {
+    for i in &file.items {
+        if let Item::Impl(im) = i {
+            if self_ty_name(im).as_deref() == Some(ty) {
+                for it in &im.items {
+                    if let ImplItem::Fn(f) = it {
+                        if f.sig.ident == name {
+                            return Some(f);
+                        }
+                    }
+                }
+            }
+        }
+    }
+    None
+}
+
+fn has_cfg(attrs: &[syn::Attribute]) -> bool {
+    attrs.iter().any(|a| a.path().is_ident("cfg"))
+}
+
+fn live_stmts(b: &syn::Block) -> Vec<&Stmt> {
+    b.stmts
+        .iter()
+        .filter(|s| match s {
+            Stmt::Local(l) => !has_cfg(&l.attrs),
+            Stmt::Macro(m) => !has_cfg(&m.attrs),
+            Stmt::Expr(e, _) => !expr_has_cfg(e),
+            Stmt::Item(_) => true,
+        })
+        .collect()
+}
+
+fn expr_has_cfg(e: &Expr) -> bool {
+    match e {
+        Expr::MethodCall(m) => has_cfg(&m.attrs),
+        Expr::Call(m) => has_cfg(&m.attrs),
+        Expr::Macro(m) => has_cfg(&m.attrs),
+        Expr::Block(m) => has_cfg(&m.attrs),
+        Expr::If(m) => has_cfg(&m.attrs),
+        _ => false,
+    }
+}
+
+fn pat_ident(p: &Pat) -> Option<String> {
+    match p {
+        Pat::Ident(i) if i.by_ref.is_none() && i.subpat.is_none() => Some(i.ident.to_string()),
+        _ => None,
+    }
+}
+
+/// `self.0.<method>(args)` or `self.<field>.<method>(args)`
+fn self_field_call<'a>(e: &'a Expr, method: &str) -> Option<&'a syn::ExprMethodCall> {
+    if let Expr::MethodCall(m) = e {
+        if m.method == method {
+            if let Expr::Field(f) = &*m.receiver {
+                if let Expr::Path(p) = &*f.base {
+                    if p.path.is_ident("self") {
+                        return Some(m);
+                    }
+                }
+            }
+        }
+    }
+    None
+}
+
+fn is_ident(e: &Expr, n: &str) -> bool {
+    matches!(e, Expr::Path(p) if p.path.is_ident(n))
+}
+
+fn macro_first_arg(m: &syn::Macro) -> R<Expr> {
+    let args = m
+        .parse_body_with(syn::punctuated::Punctuated::<Expr, syn::Token![,]>::parse_terminated)
+        .map_err(|e| format!("cannot parse macro arguments: {e}"))?;
+    args.into_iter().next().ok_or("macro without arguments".to_string())
+}
+
+struct Out {
+    text: String,
+    report: Vec<String>,
+}
+
+impl Out {
+    fn ok(&mut self, item: &str, file: &str, def: String) {
+        self.text.push_str(&def);
+        self.text.push('\n');
+        self.report.push(format!("{{\"item\":\"CountsFns.{item}\",\"file\":\"{file}\",\"ok\":true}}"));
+    }
+    fn fail(&mut self, item: &str, file: &str, e: &str) {
+        self.text.push_str(&format!("(* CountsFns.{item}: NOT TRANSLATED: {} *)\n", e.replace("*)", "* )")));
+        self.report.push(format!("{{\"item\":\"CountsFns.{item}\",\"file\":\"{file}\",\"ok\":false,\"error\":{:?}}}", e));
+    }
+    fn put(&mut self, item: &str, file: &str, r: R<String>) -> bool {
+        match r {
+            Ok(d) => {
+                self.ok(item, file, d);
+                true
+            }
+            Err(e) => {
+                self.fail(item, file, &e);
+                false
+            }
+        }
+    }
+}
+
+fn gen_counts(repo: &Path, out: &mut Out) {
+    let names = [
+        "EXPECTED_SHIFT",
+        "COMPLETED_MASK",
+        "completed",
+        "expected",
+        "with_root_callback",
+        "expect_one",
+        "complete_one",
+        "scope_complete_is_last",
+    ];
+    let src = match std::fs::read_to_string(repo.join(POOL)) {
+        Ok(s) => s,
+        Err(e) => {
+            for n in names {
+                out.fail(n, POOL, &format!("cannot read: {e}"));
+            }
+            return;
+        }
+    };
+    let file = match syn::parse_file(&src) {
+        Ok(f) => f,
+        Err(e) => {
+            for n in names {
+                out.fail(n, POOL, &format!("cannot parse: {e}"));
+            }
+            return;
+        }
+    };
+    out.text.push_str("(** ** A. AtomicCounts packing (concurrency/src/threadpool/mod.rs) *)\n");
+    let mut env = Env::default();
+
+    // constants
+    for cname in ["EXPECTED_SHIFT", "COMPLETED_MASK"] {
+        let r = (|| -> R<(String, Ty)> {
+            let c = find_const(&file, cname).ok_or(format!("const {cname} not found"))?;
+            let t = ty_of(&c.ty).filter(|t| *t != Ty::Bool).ok_or(format!("const {cname}: type is not u32/u64"))?;
+            let (s, et) = tr(&c.expr, &env, Some(t))?;
+            unify(&c.expr, t, et)?;
+            Ok((format!("Definition {cname} : N := {s}."), t))
+        })();
+        match r {
+            Ok((d, t)) => {
+                out.ok(cname, POOL, d);
+                env.vars.push((cname.to_string(), cname.to_string(), t));
+            }
+            Err(e) => out.fail(cname, POOL, &e),
+        }
+    }
+
+    // fn completed(value: u64) -> u32 / fn expected(value: u64) -> u32
+    for fname in ["completed", "expected"] {
+        let r = (|| -> R<String> {
+            let f = find_fn(&file, fname).ok_or(format!("fn {fname} not found"))?;
+            if f.sig.inputs.len() != 1 {
+                return err(&f.sig, "expected one parameter");
+            }
+            let (pn, pt) = match &f.sig.inputs[0] {
+                FnArg::Typed(t) => (pat_ident(&t.pat).ok_or("parameter pattern")?, ty_of(&t.ty)),
+                _ => return err(&f.sig, "receiver"),
+            };
+            if pt != Some(Ty::U64) {
+                return err(&f.sig, "parameter must be u64");
+            }
+            let rt = match &f.sig.output {
+                syn::ReturnType::Type(_, t) => ty_of(t),
+                _ => None,
+            };
+            if rt != Some(Ty::U32) {
+                return err(&f.sig, "return type must be u32");
+            }
+            let stmts = live_stmts(&f.block);
+            let body = match stmts.as_slice() {
+                [Stmt::Expr(e, None)] => e,
+                _ => return err(&f.block, "body must be a single tail expression"),
+            };
+            let mut e2 = env.clone();
+            e2.vars.push((pn.clone(), format!("v_{pn}"), Ty::U64));
+            let (s, t) = tr(body, &e2, Some(Ty::U32))?;
+            if t != Ty::U32 {
+                return err(body, "body does not have type u32");
+            }
+            Ok(format!("Definition {fname} (v_{pn} : N) : N := {s}."))
+        })();
+        if out.put(fname, POOL, r) {
+            env.fns.push(fname.to_string());
+        }
+    }
+
+    // AtomicCounts::with_root_callback: Self(AtomicU64::new(E))
+    let r = (|| -> R<String> {
+        let f = find_method(&file, "AtomicCounts", "with_root_callback").ok_or("AtomicCounts::with_root_callback not found")?;
+        let stmts = live_stmts(&f.block);
+        let body = match stmts.as_slice() {
+            [Stmt::Expr(e, None)] => e,
+            _ => return err(&f.block, "body must be a single tail expression"),
+        };
+        let inner = match body {
+            Expr::Call(c) if is_ident(&c.func, "Self") && c.args.len() == 1 => &c.args[0],
+            _ => return err(body, "expected Self(..)"),
+        };
+        let arg = match inner {
+            Expr::Call(c) if c.args.len() == 1 && quote::quote!(#c).to_string().replace(' ', "").starts_with("AtomicU64::new(") => &c.args[0],
+            _ => return err(inner, "expected AtomicU64::new(..)"),
+        };
+        let (s, t) = tr(arg, &env, Some(Ty::U64))?;
+        if t != Ty::U64 {
+            return err(arg, "initial word is not u64");
+        }
+        Ok(format!("Definition with_root_callback : N := {s}."))
+    })();
+    out.put("with_root_callback", POOL, r);
+
+    // AtomicCounts::expect_one
+    let r = (|| -> R<String> {
+        let f = find_method(&file, "AtomicCounts", "expect_one").ok_or("AtomicCounts::expect_one not found")?;
+        let stmts = live_stmts(&f.block);
+        let lp = match stmts.as_slice() {
+            [Stmt::Expr(Expr::Loop(l), _)] => l,
+            _ => return err(&f.block, "body must be a single loop"),
+        };
+        let body = live_stmts(&lp.body);
+        let mut e2 = env.clone();
+        let mut lets: Vec<String> = Vec::new();
+        let mut guard: Option<String> = None;
+        let mut loaded: Option<String> = None;
+        let mut done = false;
+        for st in body {
+            if done {
+                return err(st, "statement after the CAS");
+            }
+            match st {
+                Stmt::Local(l) => {
+                    let n = pat_ident(&l.pat).ok_or(format!("line {}: let pattern", l.span().start().line))?;
+                    let init = &l.init.as_ref().ok_or("let without initialiser")?.expr;
+                    if loaded.is_none() {
+                        let m = self_field_call(init, "load").ok_or(format!("line {}: first statement must load the word", l.span().start().line))?;
+                        if m.args.len() != 1 {
+                            return err(m, "load arity");
+                        }
+                        loaded = Some(n.clone());
+                        e2.vars.push((n.clone(), format!("v_{n}"), Ty::U64));
+                    } else {
+                        let (s, t) = tr(init, &e2, None)?;
+                        if t == Ty::Lit {
+                            return err(init, "untyped let");
+                        }
+                        lets.push(format!("let v_{n} := {s} in"));
+                        e2.vars.push((n.clone(), format!("v_{n}"), t));
+                    }
+                }
+                Stmt::Macro(m) if m.mac.path.is_ident("assert") => {
+                    if guard.is_some() {
+                        return err(m, "second assert");
+                    }
+                    let c = macro_first_arg(&m.mac)?;
+                    let (s, t) = tr(&c, &e2, Some(Ty::Bool))?;
+                    if t != Ty::Bool {
+                        return err(m, "assert condition is not bool");
+                    }
+                    guard = Some(format!("{} {s}", lets.join(" ")));
+                }
+                Stmt::Expr(Expr::If(i), _) => {
+                    // if self.0.compare_exchange_weak(current, next, ..).is_ok() { return; }
+                    let cas = match &*i.cond {
+                        Expr::MethodCall(ok) if ok.method == "is_ok" => self_field_call(&ok.receiver, "compare_exchange_weak")
+                            .or_else(|| self_field_call(&ok.receiver, "compare_exchange")),
+                        _ => None,
+                    }
+                    .ok_or(format!("line {}: expected `if self.0.compare_exchange[_weak](..).is_ok()`", i.span().start().line))?;
+                    if cas.args.len() != 4 {
+                        return err(cas, "CAS arity");
+                    }
+                    let ld = loaded.clone().ok_or("CAS before load")?;
+                    if !is_ident(&cas.args[0], &ld) {
+                        return err(cas, "CAS `current` argument is not the loaded word");
+                    }
+                    let (nx, t) = tr(&cas.args[1], &e2, Some(Ty::U64))?;
+                    if t != Ty::U64 {
+                        return err(cas, "CAS `new` argument is not u64");
+                    }
+                    let then = live_stmts(&i.then_branch);
+                    let is_ret = matches!(then.as_slice(), [Stmt::Expr(Expr::Return(r), _)] if r.expr.is_none());
+                    if !is_ret || i.else_branch.is_some() {
+                        return err(i, "CAS success branch must be `return;` without else");
+                    }
+                    lets.push(nx);
+                    done = true;
+                }
+                _ => return err(st, "unsupported statement in expect_one"),
+            }
+        }
+        if !done {
+            return Err("no CAS found".into());
+        }
+        let ld = loaded.unwrap();
+        let guard = guard.ok_or("no assert! guarding the increment")?;
+        let next = lets.join(" ");
+        Ok(format!(
+            "Definition expect_one_guard (v_{ld} : N) : bool := {guard}.\nDefinition expect_one_next (v_{ld} : N) : N := {next}."
+        ))
+    })();
+    out.put("expect_one", POOL, r);
+
+    // AtomicCounts::complete_one: self.0.fetch_add(k, _)   (returns the PREVIOUS word)
+    let r = (|| -> R<String> {
+        let f = find_method(&file, "AtomicCounts", "complete_one").ok_or("AtomicCounts::complete_one not found")?;
+        let rt = match &f.sig.output {
+            syn::ReturnType::Type(_, t) => ty_of(t),
+            _ => None,
+        };
+        if rt != Some(Ty::U64) {
+            return err(&f.sig, "return type must be u64");
+        }
+        let stmts = live_stmts(&f.block);
+        let body = match stmts.as_slice() {
+            [Stmt::Expr(e, None)] => e,
+            _ => return err(&f.block, "body must be a single tail expression"),
+        };
+        let m = self_field_call(body, "fetch_add").ok_or(format!("line {}: expected self.0.fetch_add(..)", body.span().start().line))?;
+        if m.args.len() != 2 {
+            return err(m, "fetch_add arity");
+        }
+        let (k, t) = tr(&m.args[0], &env, Some(Ty::U64))?;
+        if t != Ty::U64 {
+            return err(m, "fetch_add operand is not u64");
+        }
+        Ok(format!(
+            "Definition complete_one_next (v_current : N) : N := (N.modulo (N.add v_current {k}) {M64}).\n(* fetch_add returns the word BEFORE the addition *)\nDefinition complete_one_result (v_current : N) : N := v_current."
+        ))
+    })();
+    out.put("complete_one", POOL, r);
+
+    // ScopeState::complete_one: let previous = self.completion.complete_one(); lets; if C { ..try_send..; true } else { false }
+    let r = (|| -> R<String> {
+        let f = find_method(&file, "ScopeState", "complete_one").ok_or("ScopeState::complete_one not found")?;
+        let stmts = live_stmts(&f.block);
+        let mut e2 = env.clone();
+        let mut lets: Vec<String> = Vec::new();
+        let mut prev: Option<String> = None;
+        let mut res: Option<String> = None;
+        for st in stmts {
+            if res.is_some() {
+                return err(st, "statement after the completion test");
+            }
+            match st {
+                Stmt::Local(l) => {
+                    let n = pat_ident(&l.pat).ok_or(format!("line {}: let pattern", l.span().start().line))?;
+                    let init = &l.init.as_ref().ok_or("let without initialiser")?.expr;
+                    if prev.is_none() {
+                        let m = self_field_call(init, "complete_one").ok_or(format!(
+                            "line {}: first statement must be `let previous = self.completion.complete_one()`",
+                            l.span().start().line
+                        ))?;
+                        if !m.args.is_empty() {
+                            return err(m, "arity");
+                        }
+                        prev = Some(n.clone());
+                        e2.vars.push((n.clone(), format!("v_{n}"), Ty::U64));
+                    } else {
+                        let (s, t) = tr(init, &e2, None)?;
+                        if t == Ty::Lit {
+                            return err(init, "untyped let");
+                        }
+                        lets.push(format!("let v_{n} := {s} in"));
+                        e2.vars.push((n.clone(), format!("v_{n}"), t));
+                    }
+                }
+                Stmt::Macro(m) if m.mac.path.is_ident("debug_assert") => {}
+                Stmt::Expr(Expr::If(i), None) => {
+                    let (c, t) = tr(&i.cond, &e2, Some(Ty::Bool))?;
+                    if t != Ty::Bool {
+                        return err(i, "condition is not bool");
+                    }
+                    let then_txt = quote::quote!(#i).to_string();
+                    let then = live_stmts(&i.then_branch);
+                    let then_true = matches!(then.last(), Some(Stmt::Expr(Expr::Lit(l), None)) if matches!(&l.lit, Lit::Bool(b) if b.value));
+                    let then_branch = &i.then_branch;
+                    let sends = quote::quote!(#then_branch).to_string().contains("try_send");
+                    let else_false = match &i.else_branch {
+                        Some((_, e)) => match &**e {
+                            Expr::Block(b) => {
+                                let es = live_stmts(&b.block);
+                                matches!(es.as_slice(), [Stmt::Expr(Expr::Lit(l), None)] if matches!(&l.lit, Lit::Bool(b) if !b.value))
+                            }
+                            _ => false,
+                        },
+                        None => false,
+                    };
+                    let _ = then_txt;
+                    if !(then_true && sends && else_false) {
+                        return err(i, "expected `if C { ..try_send..; true } else { false }`");
+                    }
+                    res = Some(c);
+                }
+                _ => return err(st, "unsupported statement in ScopeState::complete_one"),
+            }
+        }
+        let p = prev.ok_or("no `previous` word")?;
+        let c = res.ok_or("no completion test found")?;
+        Ok(format!(
+            "Definition scope_complete_is_last (v_{p} : N) : bool := {} {c}.",
+            lets.join(" ")
+        ))
+    })();
+    out.put("scope_complete_is_last", POOL, r);
+}
+
+// ------------------------------------------------------------------------------------------------
+// B. inventory of atomic operations
+// ------------------------------------------------------------------------------------------------
+
+fn coq_str(s: &str) -> String {
+    format!("\"{}\"", s.replace('"', "\"\""))
+}
+
+fn ordering_name(e: &Expr, consts: &BTreeMap<String, String>) -> Option<String> {
+    if let Expr::Path(p) = e {
+        let segs: Vec<String> = p.path.segments.iter().map(|s| s.ident.to_string()).collect();
+        let n = segs.len();
+        if n >= 2 && segs[n - 2] == "Ordering" {
+            return match segs[n - 1].as_str() {
+                x @ ("Relaxed" | "Acquire" | "Release" | "AcqRel" | "SeqCst") => Some(x.to_string()),
+                _ => None,
+            };
+        }
+        if n == 1 {
+            return consts.get(&segs[0]).cloned();
+        }
+    }
+    None
+}
+
+fn norm<T: quote::ToTokens>(t: &T) -> String {
+    quote::quote!(#t).to_string().split_whitespace().collect::<Vec<_>>().join("")
+}
+
+struct Site {
+    file: String,
+    func: String,
+    op: String,
+    ords: Vec<String>,
+}
+
+struct Inv<'a> {
+    file: String,
+    consts: &'a BTreeMap<String, String>,
+    ctx: Vec<String>,
+    sites: Vec<Site>,
+}
+
+const ATOMIC_ONLY: &[&str] = &[
+    "fetch_add", "fetch_sub", "fetch_or", "fetch_and", "fetch_xor", "fetch_nand", "fetch_max", "fetch_min",
+    "fetch_update", "compare_exchange", "compare_exchange_weak",
+];
+
+impl<'a, 'ast> Visit<'ast> for Inv<'a> {
+    fn visit_item_mod(&mut self, i: &'ast syn::ItemMod) {
+        if has_cfg(&i.attrs) {
+            return;
+        }
+        visit::visit_item_mod(self, i);
+    }
+    fn visit_item_fn(&mut self, i: &'ast syn::ItemFn) {
+        if has_cfg(&i.attrs) {
+            return;
+        }
+        self.ctx.push(i.sig.ident.to_string());
+        visit::visit_item_fn(self, i);
+        self.ctx.pop();
+    }
+    fn visit_item_impl(&mut self, i: &'ast syn::ItemImpl) {
+        if has_cfg(&i.attrs) {
+            return;
+        }
+        let ty = norm(&i.self_ty);
+        let name = match &i.trait_ {
+            Some((_, p, _)) => format!("<{} as {}>", ty, norm(p)),
+            None => ty,
+        };
+        self.ctx.push(name);
+        visit::visit_item_impl(self, i);
+        self.ctx.pop();
+    }
+    fn visit_impl_item_fn(&mut self, i: &'ast syn::ImplItemFn) {
+        if has_cfg(&i.attrs) {
+            return;
+        }
+        self.ctx.push(i.sig.ident.to_string());
+        visit::visit_impl_item_fn(self, i);
+        self.ctx.pop();
+    }
+    fn visit_stmt(&mut self, s: &'ast Stmt) {
+        let skip = match s {
+            Stmt::Local(l) => has_cfg(&l.attrs),
+            Stmt::Macro(m) => has_cfg(&m.attrs),
+            Stmt::Expr(e, _) => expr_has_cfg(e),
+            Stmt::Item(_) => false,
+        };
+        if !skip {
+            visit::visit_stmt(self, s);
+        }
+    }
+    fn visit_expr_method_call(&mut self, m: &'ast syn::ExprMethodCall) {
+        visit::visit_expr_method_call(self, m);
+        let mut ords: Vec<String> = m.args.iter().filter_map(|a| ordering_name(a, self.consts)).collect();
+        let name = m.method.to_string();
+        if ords.is_empty() && ATOMIC_ONLY.contains(&name.as_str()) {
+            ords.push("OrdUnknown".into());
+        }
+        if !ords.is_empty() {
+            self.sites.push(Site {
+                file: self.file.clone(),
+                func: self.ctx.join("::"),
+                op: format!("{}.{}", norm(&m.receiver), name),
+                ords,
+            });
+        }
+    }
+    fn visit_expr_call(&mut self, c: &'ast syn::ExprCall) {
+        visit::visit_expr_call(self, c);
+        let f = norm(&c.func);
+        if f == "fence" || f.ends_with("::fence") || f == "compiler_fence" || f.ends_with("::compiler_fence") {
+            let mut ords: Vec<String> = c.args.iter().filter_map(|a| ordering_name(a, self.consts)).collect();
+            if ords.is_empty() {
+                ords.push("OrdUnknown".into());
+            }
+            self.sites.push(Site { file: self.file.clone(), func: self.ctx.join("::"), op: f, ords });
+        }
+    }
+}
+
+fn rs_files(dir: &Path, acc: &mut Vec<PathBuf>) {
+    let mut ents: Vec<PathBuf> = match std::fs::read_dir(dir) {
+        Ok(r) => r.filter_map(|e| e.ok().map(|e| e.path())).collect(),
+        Err(_) => return,
+    };
+    ents.sort();
+    for p in ents {
+        let name = p.file_name().and_then(|s| s.to_str()).unwrap_or("").to_string();
+        if p.is_dir() {
+            if name != "tests" {
+                rs_files(&p, acc);
+            }
+        } else if name.ends_with(".rs") && name != "tests.rs" {
+            acc.push(p);
+        }
+    }
+}
+
+fn gen_inventory(repo: &Path, out: &mut Out) {
+    out.text.push_str("(** ** B. inventory of atomic operations *)\n");
+    let item = "atomic_sites";
+    let srcs = "concurrency/src + union-find/src/concurrent";
+    let r = (|| -> R<String> {
+        let mut files = Vec::new();
+        for d in ["concurrency/src", "union-find/src/concurrent"] {
+            let p = repo.join(d);
+            if !p.is_dir() {
+                return Err(format!("{d} is not a directory"));
+            }
+            rs_files(&p, &mut files);
+        }
+        let mut sites: Vec<Site> = Vec::new();
+        for f in files {
+            let rel = f.strip_prefix(repo).unwrap().to_string_lossy().to_string();
+            let src = std::fs::read_to_string(&f).map_err(|e| format!("{rel}: {e}"))?;
+            let ast = syn::parse_file(&src).map_err(|e| format!("{rel}: {e}"))?;
+            let mut consts = BTreeMap::new();
+            for i in &ast.items {
+                if let Item::Const(c) = i {
+                    if norm(&c.ty).ends_with("Ordering") {
+                        let o = ordering_name(&c.expr, &BTreeMap::new()).ok_or(format!("{rel}: const {} is not a plain Ordering", c.ident))?;
+                        consts.insert(c.ident.to_string(), o);
+                    }
+                }
+            }
+            let mut v = Inv { file: rel, consts: &consts, ctx: Vec::new(), sites: Vec::new() };
+            v.visit_file(&ast);
+            sites.append(&mut v.sites);
+        }
+        if sites.is_empty() {
+            return Err("no atomic operation found".into());
+        }
+        let rows: Vec<String> = sites
+            .iter()
+            .map(|s| format!("  mkSite {} {} {} [{}]", coq_str(&s.file), coq_str(&s.func), coq_str(&s.op), s.ords.join("; ")))
+            .collect();
+        Ok(format!("Definition atomic_sites : list site := [\n{}\n].", rows.join(";\n")))
+    })();
+    out.put(item, srcs, r);
+}
+
+// ------------------------------------------------------------------------------------------------
+// C. synchronisation programs
+// ------------------------------------------------------------------------------------------------
+
+const WATCHED_METHODS: &[&str] = &[
+    "load", "store", "swap", "compare_and_swap", "rcu", "compare_exchange", "compare_exchange_weak", "fetch_add",
+    "fetch_sub", "fetch_or", "fetch_and", "wait", "wait_with_timeout", "wait_timeout", "notify", "notify_all",
+    "notify_one", "lock", "try_send", "send", "recv", "has_been_notified",
+];
+
+struct Prog<'a> {
+    consts: &'a BTreeMap<String, String>,
+    stack: Vec<Vec<String>>,
+    error: Option<String>,
+}
+
+impl<'a> Prog<'a> {
+    fn push(&mut self, s: String) {
+        self.stack.last_mut().unwrap().push(s);
+    }
+    fn sub<F: FnOnce(&mut Self)>(&mut self, f: F) -> String {
+        self.stack.push(Vec::new());
+        f(self);
+        let v = self.stack.pop().unwrap();
+        format!("[{}]", v.join("; "))
+    }
+}
+
+fn arm_name(p: &Pat) -> String {
+    match p {
+        Pat::TupleStruct(t) => t.path.segments.last().map(|s| s.ident.to_string()).unwrap_or_default(),
+        Pat::Path(t) => t.path.segments.last().map(|s| s.ident.to_string()).unwrap_or_default(),
+        Pat::Struct(t) => t.path.segments.last().map(|s| s.ident.to_string()).unwrap_or_default(),
+        Pat::Wild(_) => "_".into(),
+        other => norm(other),
+    }
+}
+
+impl<'a, 'ast> Visit<'ast> for Prog<'a> {
+    fn visit_stmt(&mut self, s: &'ast Stmt) {
+        let skip = match s {
+            Stmt::Local(l) => has_cfg(&l.attrs),
+            Stmt::Macro(m) => has_cfg(&m.attrs),
+            Stmt::Expr(e, _) => expr_has_cfg(e),
+            Stmt::Item(_) => false,
+        };
+        if !skip {
+            visit::visit_stmt(self, s);
+        }
+    }
+    fn visit_expr_loop(&mut self, l: &'ast syn::ExprLoop) {
+        let b = self.sub(|s| s.visit_block(&l.body));
+        self.push(format!("RLoop {b}"));
+    }
+    fn visit_expr_while(&mut self, l: &'ast syn::ExprWhile) {
+        let c = self.sub(|s| s.visit_expr(&l.cond));
+        let b = self.sub(|s| s.visit_block(&l.body));
+        self.push(format!("RWhile {} {c} {b}", coq_str(&norm(&l.cond))));
+    }
+    fn visit_expr_for_loop(&mut self, l: &'ast syn::ExprForLoop) {
+        self.error = Some(format!("line {}: for loop in a synchronisation routine", l.span().start().line));
+    }
+    fn visit_expr_if(&mut self, i: &'ast syn::ExprIf) {
+        self.visit_expr(&i.cond);
+        let t = self.sub(|s| s.visit_block(&i.then_branch));
+        let e = self.sub(|s| {
+            if let Some((_, e)) = &i.else_branch {
+                s.visit_expr(e)
+            }
+        });
+        self.push(format!("RIf {} {t} {e}", coq_str(&norm(&i.cond))));
+    }
+    fn visit_expr_match(&mut self, m: &'ast syn::ExprMatch) {
+        self.visit_expr(&m.expr);
+        let mut arms = Vec::new();
+        for a in &m.arms {
+            if a.guard.is_some() {
+                self.error = Some(format!("line {}: match guard", a.span().start().line));
+            }
+            let b = self.sub(|s| s.visit_expr(&a.body));
+            arms.push(format!("({}, {b})", coq_str(&arm_name(&a.pat))));
+        }
+        self.push(format!("RMatch {} [{}]", coq_str(&norm(&m.expr)), arms.join("; ")));
+    }
+    fn visit_expr_return(&mut self, r: &'ast syn::ExprReturn) {
+        visit::visit_expr_return(self, r);
+        let what = match &r.expr {
+            Some(e) => match &**e {
+                Expr::Struct(s) => norm(&s.path),
+                other => norm(other),
+            },
+            None => String::new(),
+        };
+        self.push(format!("RReturn {}", coq_str(&what)));
+    }
+    fn visit_expr_continue(&mut self, _: &'ast syn::ExprContinue) {
+        self.push("RContinue".into());
+    }
+    fn visit_expr_break(&mut self, b: &'ast syn::ExprBreak) {
+        visit::visit_expr_break(self, b);
+        self.push("RBreak".into());
+    }
+    fn visit_expr_try(&mut self, t: &'ast syn::ExprTry) {
+        self.error = Some(format!("line {}: `?` in a synchronisation routine", t.span().start().line));
+    }
+    fn visit_expr_closure(&mut self, _: &'ast syn::ExprClosure) {
+        // closure bodies are not executed here in program order (rcu's closure is pure)
+    }
+    fn visit_expr_method_call(&mut self, m: &'ast syn::ExprMethodCall) {
+        visit::visit_expr_method_call(self, m);
+        let name = m.method.to_string();
+        if WATCHED_METHODS.contains(&name.as_str()) {
+            let ords: Vec<String> = m.args.iter().filter_map(|a| ordering_name(a, self.consts)).collect();
+            self.push(format!("RCall {} {} [{}]", coq_str(&norm(&m.receiver)), coq_str(&name), ords.join("; ")));
+        }
+    }
+    fn visit_expr_call(&mut self, c: &'ast syn::ExprCall) {
+        visit::visit_expr_call(self, c);
+        let f = norm(&c.func);
+        let last = f.rsplit("::").next().unwrap_or("").to_string();
+        if last == "fence" || last == "drop" {
+            let ords: Vec<String> = c.args.iter().filter_map(|a| ordering_name(a, self.consts)).collect();
+            let args: Vec<String> = if last == "drop" { c.args.iter().map(|a| norm(a)).collect() } else { Vec::new() };
+            self.push(format!("RCall {} {} [{}]", coq_str(&args.join(",")), coq_str(&last), ords.join("; ")));
+        }
+    }
+}
+
+fn gen_progs(repo: &Path, out: &mut Out) {
+    out.text.push_str("(** ** C. synchronisation programs (program order, control structure) *)\n");
+    let items: [(&str, &str, &str, &str); 7] = [
+        ("prog_rolock_read", LIBRS, "ReadOptimizedLock", "read"),
+        ("prog_rolock_lock", LIBRS, "ReadOptimizedLock", "lock"),
+        ("prog_writer_drop", LIBRS, "MutexWriter", "drop"),
+        ("prog_trigger_drop", LIBRS, "TriggerWhenDone", "drop"),
+        ("prog_notif_wait", NOTIF, "Notification", "wait"),
+        ("prog_notif_notify", NOTIF, "Notification", "notify"),
+        ("prog_notif_has_been_notified", NOTIF, "Notification", "has_been_notified"),
+    ];
+    for (item, file, ty, fname) in items {
+        let r = (|| -> R<String> {
+            let src = std::fs::read_to_string(repo.join(file)).map_err(|e| format!("cannot read: {e}"))?;
+            let ast = syn::parse_file(&src).map_err(|e| format!("cannot parse: {e}"))?;
+            let f = find_method(&ast, ty, fname).ok_or(format!("{ty}::{fname} not found"))?;
+            let consts = BTreeMap::new();
+            let mut p = Prog { consts: &consts, stack: vec![Vec::new()], error: None };
+            p.visit_block(&f.block);
+            if let Some(e) = p.error {
+                return Err(e);
+            }
+            let body = p.stack.pop().unwrap();
+            Ok(format!("Definition {item} : list rop := [\n  {}\n].", body.join(";\n  ")))
+        })();
+        out.put(item, file, r);
+    }
+}
+
+const HEADER: &str = r#"(* GENERATED by /verif/translator (x_counts.rs) from concurrency/src and union-find/src/concurrent.
+   Do not edit: regenerated on every run of bin/check. *)
+From Coq Require Import NArith List String.
+Import ListNotations.
+Local Open Scope string_scope.
+Local Open Scope N_scope.
+
+(** std::sync::atomic::Ordering ([OrdUnknown]: the ordering argument is not a literal / constant) *)
+Inductive ordering := Relaxed | Acquire | Release | AcqRel | SeqCst | OrdUnknown.
+
+(** one atomic operation of the source: file, enclosing function, receiver.method, orderings *)
+Record site := mkSite { s_file : string; s_fn : string; s_op : string; s_ords : list ordering }.
+
+(** synchronisation operations of a routine, in program order *)
+Inductive rop :=
+| RCall (recv meth : string) (ords : list ordering)
+| RLoop (body : list rop)
+| RWhile (cond : string) (condops body : list rop)
+| RIf (cond : string) (thn els : list rop)
+| RMatch (scrutinee : string) (arms : list (string * list rop))
+| RReturn (what : string)
+| RContinue
+| RBreak.
+
+"#;
+
+pub fn generate(repo: &std::path::Path) -> (String, Vec<String>) {
+    let mut out = Out { text: HEADER.to_string(), report: Vec::new() };
+    gen_counts(repo, &mut out);
+    out.text.push('\n');
+    gen_inventory(repo, &mut out);
+    out.text.push('\n');
+    gen_progs(repo, &mut out);
+    (out.text, out.report)
 }
